@@ -15,10 +15,10 @@ echo "|---|---|---|" >> $out
 while read p sha; do
   WT=$(mktemp -d /tmp/fixwt-XXXXXX); rmdir $WT
   git -C /repo worktree add -q --detach $WT ${sha}~1 || continue
-  SX_REPO=$WT timeout 3000 python3-vt -m sx.run $p --tier quick --no-evidence > /tmp/fix_$p_$sha.log 2>&1; rc=$?
+  SX_REPO=$WT timeout 3000 python3-vt -m sx.run $p --tier quick --no-evidence > /tmp/fix_${p}_${sha}.log 2>&1; rc=$?
   git -C /repo worktree remove --force $WT
-  n=$(grep -c '^VIOLATION' /tmp/fix_$p_$sha.log)
-  first=$(grep '^VIOLATION' -A1 /tmp/fix_$p_$sha.log | sed -n 2p | cut -c1-150 | tr '|' '/')
+  n=$(grep -c '^VIOLATION' /tmp/fix_${p}_${sha}.log)
+  first=$(grep '^VIOLATION' -A1 /tmp/fix_${p}_${sha}.log | sed -n 2p | cut -c1-150 | tr '|' '/')
   echo "| $p | $sha | exit $rc, $n VIOLATION lines; $first |" >> $out
   echo "$p $sha exit=$rc nviol=$n"
 done < /tmp/fix_list.txt
